@@ -19,6 +19,67 @@ REPO = Path(os.environ.get("VERIF_REPO", "/repo"))
 PKG = "funtracks"
 
 
+class _DesugarMatch(ast.NodeTransformer):
+    """`match` statements whose patterns are literals, singletons, alternatives of those, class patterns without
+    sub-patterns, captures and wildcards are rewritten into the equivalent if / elif chain (the flow-graph builder and
+    the rules know `if`).  Other patterns are left alone."""
+
+    n = 0
+
+    def _test(self, subj: ast.expr, pat: ast.pattern):
+        """-> (test expr or None for irrefutable, [binding statements]) or False if unsupported"""
+        if isinstance(pat, ast.MatchValue):
+            return ast.Compare(left=subj, ops=[ast.Eq()], comparators=[pat.value]), []
+        if isinstance(pat, ast.MatchSingleton):
+            return ast.Compare(left=subj, ops=[ast.Is()], comparators=[ast.Constant(pat.value)]), []
+        if isinstance(pat, ast.MatchAs) and pat.pattern is None:
+            binds = [ast.Assign(targets=[ast.Name(pat.name, ast.Store())], value=subj)] if pat.name else []
+            return None, binds
+        if isinstance(pat, ast.MatchAs) and pat.pattern is not None:
+            r = self._test(subj, pat.pattern)
+            if r is False:
+                return False
+            return r[0], r[1] + ([ast.Assign(targets=[ast.Name(pat.name, ast.Store())], value=subj)] if pat.name else [])
+        if isinstance(pat, ast.MatchOr):
+            parts = [self._test(subj, p_) for p_ in pat.patterns]
+            if any(r is False or r[1] or r[0] is None for r in parts):
+                return False
+            return ast.BoolOp(ast.Or(), [r[0] for r in parts]), []
+        if isinstance(pat, ast.MatchClass) and not pat.patterns and not pat.kwd_patterns:
+            return ast.Call(func=ast.Name("isinstance", ast.Load()), args=[subj, pat.cls], keywords=[]), []
+        return False
+
+    def visit_Match(self, node: ast.Match):
+        self.generic_visit(node)
+        _DesugarMatch.n += 1
+        tmp = f"_match_subject_{node.lineno}"
+        simple = isinstance(node.subject, ast.Name)
+        subj = node.subject if simple else ast.Name(tmp, ast.Load())
+        arms = []
+        for case in node.cases:
+            r = self._test(subj, case.pattern)
+            if r is False:
+                return node
+            test, binds = r
+            if case.guard is not None:
+                if binds:
+                    return node
+                test = case.guard if test is None else ast.BoolOp(ast.And(), [test, case.guard])
+            arms.append((test, binds + case.body))
+        chain = None
+        for test, body in reversed(arms):
+            if test is None:
+                chain = body
+            else:
+                chain = [ast.If(test=test, body=body, orelse=chain or [])]
+        out = ([] if simple else [ast.Assign(targets=[ast.Name(tmp, ast.Store())], value=node.subject)]) + (chain or [])
+        for st in out:
+            for n_ in ast.walk(st):
+                if not hasattr(n_, "lineno"):
+                    ast.copy_location(n_, node)
+        return out
+
+
 class _SplitConditionalEffects(ast.NodeTransformer):
     """`stmt(A(..) if c else B(..))`  ->  `if c: stmt(A(..))  else: stmt(B(..))` for simple statements.  The analyses are
     statement based: without the split both arms' calls would count as executed, and a chosen value would be an
@@ -245,6 +306,9 @@ class Program:
                 tree = ast.parse(text, filename=str(path))
             except SyntaxError as e:  # pragma: no cover
                 raise AnalysisError(f"cannot parse {path}: {e}") from e
+            if any(isinstance(x, ast.Match) for x in ast.walk(tree)):
+                tree = _DesugarMatch().visit(tree)
+                ast.fix_missing_locations(tree)
             if ".user_actions" in name or ".actions" in name:
                 tree = _SplitConditionalEffects().visit(tree)
                 ast.fix_missing_locations(tree)
